@@ -3,7 +3,7 @@
 M: RelaySM.tla exhaustively per selection mode (select-loop branches, reader / validateReturnCondition
    goroutines, consumer loop, providers, processing timeout as actions) - invariants OneFinal,
    AfterSuccess, Justified, ModeAttempts, AttemptsBoundedPipe and action properties AfterFinalSilent,
-   NoAttemptAfterSuccess, NoResendAfterSend, NoDecideRetryAfterNR, SendRetriesBounded; thorough tier adds
+   NoAttemptAfterSuccess, NoResendAfterSend, NoRetryAfterNR, SendRetriesBounded; thorough tier adds
    Termination under fairness.  RetryPolicy.tla holds Decide / OnSend as operators.
 G: (a) RetryPolicyEmit.tla prints the whole bounded input domain of Decide and OnSendRelayResult with the
    spec's outputs; (b) tlc -simulate on RelaySM.tla GenNext emits environment schedules.
@@ -204,9 +204,9 @@ def run(ctx):
         if lv["violated"]:
             raise vlib.Infra("design-level: Termination fails under fairness (see %s)" % lv["outfile"])
         ctx.add_mc("RelaySM RelaySM_live.cfg (Termination, fairness)", lv)
-    # the known gap at design level: the strict form must FAIL on the spec (else the spec lost the quirk)
+    # history of finding F34: without the fix (FixF34 = FALSE) the strict form fails on the spec
     nr = vlib.tlc_mc(ctx, "RelaySM", "RelaySM_nr.cfg", timeout=900)
-    ctx.notes.append("design-level strict NoRetryAfterNR on RelaySM (code as it is): %s" % (nr["violated"] or "holds"))
+    ctx.notes.append("design-level strict NoRetryAfterNR on RelaySM with FixF34=FALSE (code before the F34 fix): %s" % (nr["violated"] or "holds"))
     if not ctx.quick:
         fx = vlib.tlc_mc(ctx, "RelaySM", "RelaySM_fix.cfg", timeout=1800)
         ctx.notes.append("design-level strict NoRetryAfterNR on RelaySM with fixes/F34 modelled (FixF34=TRUE): %s, %d states" % (
